@@ -37,7 +37,7 @@ var c06Data = []datum{
 	{src: `moves(ab)`, steps: []string{"ab"}},
 }
 
-const c06Contexts = 8
+const c06Contexts = 13
 
 var c06Owners = []string{"S1", "Map_ON_LOAD", "S2"}
 
@@ -65,8 +65,18 @@ func c06Stmt(cmd, arg string, c int) string {
 		return "\tporyswitch(PV) {\n\t\tSEL: " + cmd + "(X, " + arg + ")\n\t\t_: other(\"unselected\")\n\t}\n"
 	case 6: // selected through '_', unselected case first
 		return "\tporyswitch(PV) {\n\t\tNOPE { other(\"unselected\") other(moves(zz)) }\n\t\t_ { " + cmd + "(X, " + arg + ") }\n\t}\n"
-	default: // do...while condition position (AutoVar)
+	case 7: // do...while condition position (AutoVar)
 		return "\tdo {\n\t\tw\n\t} while (" + cmd + "(X, " + arg + ") != 0)\n"
+	case 8: // AutoVar leaf in a parenthesised group that is followed by an operator
+		return "\tif ((" + cmd + "(X, " + arg + ") == 1) && flag(Q)) {\n\t\tz\n\t}\n"
+	case 9: // AutoVar leaf inside a negated group in the middle of an expression
+		return "\tif (flag(Q) && !(" + cmd + "(X, " + arg + ") || flag(R)) || var(VV) == 3) {\n\t\tz\n\t}\n"
+	case 10: // elif condition, group first
+		return "\tif (flag(Q)) {\n\t\ty\n\t} elif ((flag(R) || " + cmd + "(X, " + arg + ") != 2) && flag(T)) {\n\t\tz\n\t}\n"
+	case 11: // AutoVar switch operand
+		return "\tswitch (" + cmd + "(X, " + arg + ")) {\n\t\tcase 1:\n\t\t\tz\n\t}\n"
+	default: // two inline data in one command: a typed text first
+		return "\t" + cmd + "(custom\"p" + cmd + "\", " + arg + ")\n"
 	}
 }
 
@@ -122,7 +132,7 @@ func runC06(tier string) int {
 	r.Assume("names are <owner>_Text_<n> / <owner>_Movement_<n>, n counting the owner's new contents in source order of first appearance; content of a moves() is its written, expanded step list",
 		"identical content = identical text after terminator and format() processing and identical string type")
 	return r.Finish(r.Get("evaluations"), r.Get("nontrivial"),
-		"every file with N inline arguments distributed over 3 owners (two scripts and an inline map script, <= 3 each) x every assignment of 11 datum kinds (plain / already-terminated / formatted / other text, ascii and custom types, 5 moves() spellings) x context rotations over 8 contexts (statement, if, while, switch case, AutoVar condition, selected poryswitch case, '_' case after an unselected one, do-while condition) x {no user name, a user text, a user movement named like a generated label}; non-trivial = some content is shared between two arguments")
+		"every file with N inline arguments distributed over 3 owners (two scripts and an inline map script, <= 3 each) x every assignment of 11 datum kinds (plain / already-terminated / formatted / other text, ascii and custom types, 5 moves() spellings) x context rotations over 13 contexts (statement, if, while, switch case, AutoVar condition, selected poryswitch case, '_' case after an unselected one, do-while condition, AutoVar leaf in a parenthesised / negated group followed by an operator, elif condition, AutoVar switch operand, second of two inline data in one command) x {no user name, a user text, a user movement named like a generated label}; non-trivial = some content is shared between two arguments")
 }
 
 func c06Eval(r *harness.Run, data []datum, dist []int, rot, clash int) {
@@ -143,7 +153,7 @@ func c06Eval(r *harness.Run, data []datum, dist []int, rot, clash int) {
 		for j := 0; j < n; j++ {
 			ctx := (k*3 + rot) % c06Contexts
 			cmd := fmt.Sprintf("c%d", k)
-			if ctx == 4 || ctx == 7 {
+			if ctx == 4 || (ctx >= 7 && ctx <= 11) {
 				auto[cmd] = true
 			}
 			body.WriteString(c06Stmt(cmd, data[k].src, ctx))
@@ -165,24 +175,39 @@ func c06Eval(r *harness.Run, data []datum, dist []int, rot, clash int) {
 	labelContent := map[string]datum{}
 	var wantLabel []string
 	shared := false
-	for _, s := range slots {
-		key := s.d.key()
+	assign := func(owner string, d datum) string {
+		key := d.key()
 		if l, ok := seenKey[key]; ok {
-			wantLabel = append(wantLabel, l)
 			shared = true
-			continue
+			return l
 		}
 		var l string
-		if s.d.isText {
-			l = fmt.Sprintf("%s_Text_%d", s.owner, tcount[s.owner])
-			tcount[s.owner]++
+		if d.isText {
+			l = fmt.Sprintf("%s_Text_%d", owner, tcount[owner])
+			tcount[owner]++
 		} else {
-			l = fmt.Sprintf("%s_Movement_%d", s.owner, mcount[s.owner])
-			mcount[s.owner]++
+			l = fmt.Sprintf("%s_Movement_%d", owner, mcount[owner])
+			mcount[owner]++
 		}
 		seenKey[key] = l
-		labelContent[l] = s.d
-		wantLabel = append(wantLabel, l)
+		labelContent[l] = d
+		return l
+	}
+	// Texts of a script are hoisted before its movements; within each kind in source order.
+	firstArg := make([]string, len(slots))
+	wantLabel = make([]string, len(slots))
+	for pass := 0; pass < 2; pass++ {
+		for i, s := range slots {
+			if pass == 0 {
+				firstArg[i] = "X"
+				if s.ctx == 12 {
+					firstArg[i] = assign(s.owner, datum{isText: true, typ: "custom", content: "p" + s.cmd})
+				}
+			}
+			if s.d.isText == (pass == 0) {
+				wantLabel[i] = assign(s.owner, s.d)
+			}
+		}
 	}
 	expectError := false
 	userName := ""
@@ -236,7 +261,7 @@ func c06Eval(r *harness.Run, data []datum, dist []int, rot, clash int) {
 		for _, l := range lines {
 			if strings.HasPrefix(l, "\t"+s.cmd+" ") {
 				found++
-				if l != "\t"+s.cmd+" X, "+wantLabel[i] {
+				if l != "\t"+s.cmd+" "+firstArg[i]+", "+wantLabel[i] {
 					fail("C06:argument-label", fmt.Sprintf("command %s emitted as %q, want argument %s (datum %s in context %d)", s.cmd, l, wantLabel[i], s.d.src, s.ctx))
 				}
 			}
